@@ -44,6 +44,7 @@ inductive PAct where
   | act (a : Action)
   | change (name : Bytes)
   | wblock               -- `B<k>` / `U`: write back-pressure of the transport (oracle-only ops `loopx`)
+  | noIdle               -- `Z`: the server starts / stops refusing `idle` (ghost: nothing happens at the client)
   | bad
 
 def parseAction (s : String) : PAct :=
@@ -54,6 +55,7 @@ def parseAction (s : String) : PAct :=
     match k with
     | 'd' => match unhex rest with | some b => .act (.deliver b) | none => .bad
     | 's' => match unhex rest with | some b => .change b | none => .bad
+    | 'Z' => if rest.isEmpty then .noIdle else .bad
     | 'q' =>
       match rest.splitOn ":" with
       | [rid, spec] =>
@@ -296,6 +298,7 @@ def handle (toks : List String) (impl : String) : Verdict :=
       let composite := match pa with | .act (.both _ _ _) => true | _ => false
       let f := match pa with
         | .change n => { f with sv := Spec.Server.change f.sv n }
+        | .noIdle => { f with sv := { f.sv with noIdle := !f.sv.noIdle } }
         | .act (.deliver b) =>
           let had := (Spec.firstLine f.delivered).isSome
           let now := f.delivered ++ b
@@ -406,7 +409,7 @@ def handle (toks : List String) (impl : String) : Verdict :=
         match rawReqs.find? (·.1 == rid) with
         | some (_, cmds) =>
           if res == expectedRaw cmds then none
-          else if isErrClass res && (!honest || f.dropMain) then none
+          else if isErrClass res && (!honest || f.dropMain || f.sv.refusedIdle) then none
           else if !honest then (if res.startsWith "ok:" || res.startsWith "ack:" then none else some s!"fail:C01-result-of-{rid}") else some s!"fail:C01-wrong-reply-for-request-{rid}"
         | none =>
           match artReqs.find? (·.1 == rid) with
@@ -534,7 +537,7 @@ def handle (toks : List String) (impl : String) : Verdict :=
           "fail:C08-read-error-not-surfaced"
         else if on "C08" && f.dropMain && connectedOk && !f.faulted && startsWith f.sv.out body && pendImpl.isEmpty &&
             !(f.droppedSeen && (f.evend || f.evDropped)) then "fail:C08-last-handle-dropped-but-connection-kept"
-        else if on "C05" && honest && connectedOk && !f.dropMain && !f.sv.idle then "fail:C05-not-idling-at-quiescence"
+        else if on "C05" && honest && connectedOk && !f.dropMain && !f.sv.idle && !f.sv.refusedIdle then "fail:C05-not-idling-at-quiescence"
         else if on "C01" && honest && connectedOk && !f.dropMain && !pendImpl.isEmpty then "fail:C01-request-never-answered"
         else if prop == "C17" && honest && connectedOk && !f.dropMain && !pendImpl.isEmpty && quietEnd then "fail:C17-album-art-never-returned"
         else "ok"
